@@ -129,6 +129,24 @@ Proof.
   - intros inv extra. exact (wordb_is_gatom foldf unicode utf16 cs Hw eqclass inv extra).
 Qed.
 
+(* closure under (?: ... ) nesting: a factor of a term may itself be a group, i.e. anything that denotes positions from
+   some fuel on and stays inside the text (gden); terms (make_cat) and alternations (make_alt) of such factors are such
+   factors again, with explicit fuel bounds, so the construction iterates to any nesting depth; atoms and assertions
+   start it at fuel 0 *)
+Theorem c01_fragment_closed_under_grouping : forall foldf unicode utf16 cs eqclass,
+  (forall r n P, gatom foldf unicode utf16 cs eqclass r n P -> gden foldf unicode utf16 cs eqclass r n P 0 0) /\
+  (forall kr kn rs ns Ps, Forall3 (fun r n P => gden foldf unicode utf16 cs eqclass r n P kr kn) rs ns Ps ->
+     gden foldf unicode utf16 cs eqclass (seq_of rs) (make_cat ns) (fun i => gchain Ps [i]) (kr + length rs) (kn + 1)) /\
+  (forall kr kn rs ns Ps, Forall3 (fun r n P => gden foldf unicode utf16 cs eqclass r n P kr kn) rs ns Ps -> rs <> [] ->
+     forall fuel, (length ns <= fuel)%nat ->
+     gden foldf unicode utf16 cs eqclass (alt_of rs) (make_alt fuel ns) (catP Ps) (kr + length rs) (kn + fuel)).
+Proof.
+  intros foldf unicode utf16 cs eqclass. split; [|split].
+  - exact (gatom_gden foldf unicode utf16 cs eqclass).
+  - intros kr kn. exact (nested_term foldf unicode utf16 cs eqclass kr kn).
+  - intros kr kn. exact (nested_alternation foldf unicode utf16 cs eqclass kr kn).
+Qed.
+
 (* the three kinds of atoms *)
 Theorem c01_atoms : forall foldf utf16 cs, wf_text cs ->
   (forall unicode eqclass ch icase n, char_node icase unicode ch = Ok n ->
